@@ -127,7 +127,7 @@ PROPS = {
     "C12": {
         "bin": "px_layers", "budget_ms": 30000, "wall_cap": {"quick": 600, "thorough": 1800},
         "rule": "every glyph 0..255 of every built-in font page 0..=42 as the middle cell of 3-cell rows with neighbours from {0, 32, 255, 219, 'A'}, 8 colour contexts (incl. bright, equal fg/bg and an extra palette colour), bold on/off, "
-                "both settings of normalize_whitespaces; every glyph that is blank in its own page between cells of another font page (every page x 3 other pages; one row in which the three cells differ in the font page only); all stacks of 2 (thorough 3) layers of the small layer menu (alpha / offset / hidden / chars / attributes layers) above a base layer in 6 states (plain, hidden, locked, moved, alpha, only its first row stored) and below a small floating layer low in the document for the flattening step; a copy of each page font with its blank glyphs edited in place (stale checksum) next to the original; 8 special documents (colours encoded as RGB values incl. RGB black x bold x 5 glyph kinds on an alpha / opaque layer, with / without an alpha layer beneath, with / without a default font page of another cell height, unfilled last row and column); "
+                "both settings of normalize_whitespaces; every glyph that is blank in its own page between cells of another font page (every page x 3 other pages; one row in which the three cells differ in the font page only); all stacks of 2 (thorough 3) layers of the small layer menu (alpha / offset / hidden / chars / attributes layers) above a base layer in 6 states (plain, hidden, locked, moved, alpha, only its first row stored) and below a small floating layer low in the document for the flattening step; a copy of each page font with its blank glyphs edited in place (stale checksum) next to the original; 8 special documents (colours encoded as RGB values incl. RGB black x bold x 5 glyph kinds on an alpha / opaque layer, with / without an alpha layer beneath, with / without a default font page of another cell height, unfilled last row and column); 27 font tables other than a font in slot 0 (every subset of the slots {0, 2, 5} incl. the empty table x an 8x8 or 8x16 font in each occupied slot, cells on all three pages whether or not a font is behind the page); "
                 "oracle: byte-identical render_to_rgba of input and ColorOptimizer::optimize(input), same size. non-trivial = one middle glyph / one stack",
         "level_text": "the complete glyph range of all built-in fonts and the complete small layer-stack scope are pushed through the real optimiser and renderer and compared pixel for pixel",
         "level_note": "the optimiser is a left-to-right fold over the previous cell's attribute, so 3-cell rows determine its behaviour; the primary font slot is set to the page under test so that the renderer draws every glyph row",
